@@ -61,6 +61,21 @@ def gen_statement(r, tables=TABLES) -> str:
     return wrap.format(body=body.format(**f), **f)
 
 
+# names of mixed depth in which one schema string is a proper prefix of another (printed-name order differs from
+# (schema, name) order), next to quoted schemas with punctuation
+TABLES_MIXED = ["s.a.z", "s.b", "s.c.a", "s.d", "t.a.b", "t.b", "t", '"s-eu".a', "s0.a", "s.a", "db.s.a.q"[:6], "sa.b"]
+
+
+def gen_mixed_depth(r, n):
+    recs = []
+    for _ in range(n):
+        k = r.choice([1, 2, 2, 3])
+        stmts = [gen_statement(r, TABLES_MIXED) for _ in range(k)]
+        recs.append({"sql": ";\n".join(stmts), "dialect": "ansi", "silent": False, "metadata": None, "provider": "dummy", "config": {},
+                     "origin": "generated-mixed-depth"})
+    return recs
+
+
 def gen_chain(r, n) -> list[str]:
     """later statements read earlier targets"""
     order = r.sample(TABLES, min(len(TABLES), n + 1))
